@@ -175,12 +175,6 @@ func init() {
 	reg("math/rand.Intn", randIntn)
 	reg("(*math/rand.Rand).Intn", randIntn)
 	reg("math/rand.Seed", noopv)
-	reg("time.Now", func(e *Engine, fn *ssa.Function, a []Value, s ssa.Instruction) Value {
-		return zero(e.namedType("time", "Time"))
-	})
-	reg("(time.Time).UnixNano", func(e *Engine, fn *ssa.Function, a []Value, s ssa.Instruction) Value {
-		return e.freshBV("now", 64)
-	})
 	regVerif("BodyReads", func(e *Engine, fn *ssa.Function, a []Value, s ssa.Instruction) Value {
 		n, _ := e.side["bodyreads"].(int)
 		return mkBV(64, uint64(n))
